@@ -58,7 +58,7 @@ PROPS = {
                        "tail), their wrappers, the runtime dispatcher (CPU-feature answers arbitrary) and the scalar builder all produce the "
                        "reference marker/newline bit vectors; the rank/select layer over those vectors is unit c21_index.",
         "trusted_base": COMMON_TRUST + [MODELS + "_pdep_u64", "Verus 0.2026.09.13 + Z3; seam R4 between the Kani chunk contract and the Verus chunk stub",
-                                        "BitWriter contracts (Kani c05_bitwriter_*)"],
+                                        "BitWriter contracts: Verus unit c05_bitwriter (all operations, any state)"],
         "assumptions": ["NEON/SVE2 engines unverified", "configurations with equal special bytes are outside the property", "text.len() <= u32::MAX (asserted by the index constructor)"],
     },
     "C05": {
@@ -74,8 +74,7 @@ PROPS = {
                                         "Verus 0.2026.09.13 + Z3; seam R4 between Kani-proved kernel contracts and Verus stubs"],
         "assumptions": ["NEON/SVE2 engines unverified",
                         "the two-line runtime dispatchers json::simd::build_semi_index_{standard,simple} (cpuid) are not executed",
-                        "BitWriter::finish / write_zeros contracts assumed (write_bit and write_bits are proved)",
-                        "usize is 64 bits"],
+                                                "usize is 64 bits"],
     },
     "C07": {
         "level": "proof",
